@@ -1,6 +1,7 @@
 import Chartparse.Proofs.C01Proofs
 import Chartparse.Proofs.Bridge
 import Chartparse.Proofs.Strict
+import Chartparse.Proofs.ChainProofs
 /-! Property theorems of C01 (statements only; helper lemmas live in `Proofs/`). -/
 namespace Chartparse.Props.C01
 open Chartparse Chartparse.Tempo Chartparse.F64
@@ -35,5 +36,39 @@ theorem tsRec_close :
       exactRec res evs t < 1000000000000 →
       |((x - headTs evs : Int) : Rat) - exactRec res evs t| ≤ (segsRec evs t : Rat) * (1/2 + 1/1000) :=
   @Chartparse.Tempo.tsRec_close
+
+/-- **C01 (query)**: for every resolution ≥ 1, every list of written `(tick, n)` pairs with `n ≥ 1` that the code
+    accepts as a tempo map, every tick whose exact time is below 10⁶ s: the un-hinted public query returns a timestamp
+    within `(½ + 10⁻³) µs` per tempo segment traversed of the exact tempo-map time. -/
+theorem C01_query :
+    ∀ (res : Nat) (hres : 1 ≤ res) (pairs : List (Nat × Nat)) (hn : ∀ p ∈ pairs, 1 ≤ p.2)
+    (evs : List BpmEv) (hb : mapOf res pairs = .ok evs) (t : Nat) (x : Int) (g : Nat)
+    (hq : tsAt (res : Int) evs (t : Int) 0 = .ok (x, g)) (hE : exactUs res pairs t < 1000000000000),
+    |(x : Rat) - exactUs res pairs t| ≤ (segments pairs t : Rat) * (1/2 + 1/1000) :=
+  @Chartparse.Tempo.C01_query
+
+/-- **C01 (zero)**: tick 0 is exactly time zero, with governing index 0 -/
+theorem C01_zero :
+    ∀ (res : Nat) (pairs : List (Nat × Nat)) (evs : List BpmEv) (hb : mapOf res pairs = .ok evs)
+    (x : Int) (g : Nat) (hq : tsAt (res : Int) evs 0 0 = .ok (x, g)),
+    x = 0 :=
+  @Chartparse.Tempo.C01_zero
+
+/-- **C11 (any line order)**: for the body lines of one kind in any order whatsoever — sorted, partially sorted,
+    shuffled, with duplicates — building the events either raises ValueError or returns, for every line, exactly the
+    timestamp and governing index of the un-hinted query for its tick -/
+theorem C01_events :
+    ∀ (res : Int) (evs : List BpmEv) (hs : (evs.map (·.tick)).Pairwise (· < ·))
+    (ticks : List Nat) (h : Nat),
+    chain res evs ticks h = .error .valueError ∨
+    ∃ out, chain res evs ticks h = .ok out ∧ out.length = ticks.length ∧
+      ∀ i (hi : i < ticks.length) (ho : i < out.length), tsAt res evs (ticks[i] : Int) 0 = .ok out[i] :=
+  @Chartparse.Tempo.chain_any_order_ts
+
+/-- non-vacuity: the 4-segment map of tests/data/test.chart at resolution 100 is accepted by the model, and the
+    envelope hypothesis of `C01_query` holds at tick 1840 -/
+example : (match mapOf 100 [(0, 117000), (800, 120000), (1200, 90000), (1800, 100000)] with
+    | .ok evs => evs.map (·.ts) | .error _ => []) = [0, 4102564, 6102564, 10102564] := by decide +kernel
+example : exactUs 100 [(0, 117000), (800, 120000), (1200, 90000), (1800, 100000)] 1840 < 1000000000000 := by decide +kernel
 
 end Chartparse.Props.C01
